@@ -154,3 +154,312 @@ Qed.
    announced so far equal the allocations, permissions and channels that exist *)
 Theorem chk_C15_on_model cfg ep h : chk_C15 (model_case cfg ep h) = true.
 Proof. unfold chk_C15, model_case. cbn [rc_steps]. apply (chk_C15_model cfg h (init ep)). apply inv_init. Qed.
+
+(* ---------- what never changes about an allocation: a frame lemma ---------- *)
+Definition same_id (a a' : alloc) : Prop :=
+  a_client a' = a_client a /\ a_relay a' = a_relay a /\ a_fam a' = a_fam a /\ a_proto a' = a_proto a /\ a_user a' = a_user a.
+
+Lemma same_id_refl a : same_id a a.
+Proof. unfold same_id. auto 6. Qed.
+
+Lemma add_perm_id a i dl a' ev : add_perm a i dl = (a', ev) -> same_id a a'.
+Proof. unfold add_perm. intros H. inversion H; subst. unfold same_id; cbn. auto 6. Qed.
+
+Lemma install_perms_id dl peers : forall a a' ev, install_perms a dl peers = (a', ev) -> same_id a a'.
+Proof.
+  induction peers as [|[p|] r IH]; cbn [install_perms]; intros a a' ev H.
+  - inversion H; subst. apply same_id_refl.
+  - destruct (add_perm a (ip p) dl) as [a1 e1] eqn:H1. destruct (install_perms a1 dl r) as [a2 e2] eqn:H2.
+    inversion H; subst. apply add_perm_id in H1. apply IH in H2. unfold same_id in *. intuition congruence.
+  - eapply IH; eauto.
+Qed.
+
+Lemma tick_allocs_id t l : forall l' ev, tick_allocs t l = (l', ev) ->
+  forall a', In a' l' -> exists a, In a l /\ same_id a a'.
+Proof.
+  induction l as [|a l IH]; cbn [tick_allocs]; intros l' ev H a' Hin; [inversion H; subst; destruct Hin|].
+  destruct (tick_alloc t a) as [oa e1] eqn:H1. destruct (tick_allocs t l) as [r e2] eqn:H2.
+  inversion H; subst; clear H. unfold tick_alloc in H1.
+  destruct (a_dl a <=? t).
+  - inversion H1; subst. destruct (IH _ _ eq_refl _ Hin) as (x & Hx & Hs). exists x. split; [right; exact Hx|exact Hs].
+  - inversion H1; subst; clear H1. destruct Hin as [<-|Hin].
+    + exists a. split; [left; reflexivity|]. unfold same_id; cbn. auto 6.
+    + destruct (IH _ _ eq_refl _ Hin) as (x & Hx & Hs). exists x. split; [right; exact Hx|exact Hs].
+Qed.
+
+(* an allocation of the state after a step is one of the state before with the same identity, or the one a successful
+   Allocate has just created: for the requester, of a family 1 or 2, on the relay IP of that family *)
+Definition fresh_alloc (cfg : config) (e : event) (a' : alloc) : Prop :=
+  (exists src tid c r unk, e = EReq src tid c r unk /\ a_client a' = src) /\
+  (a_fam a' = 1%N \/ a_fam a' = 2%N) /\
+  ip (a_relay a') = (if (a_fam a' =? 2)%N then cfg_relay_ip6 cfg else cfg_relay_ip4 cfg) /\
+  a_perms a' = [] /\ a_chans a' = [].
+
+Lemma default_family_12 cfg src : default_family cfg src = 1%N \/ default_family cfg src = 2%N.
+Proof.
+  unfold default_family, fam_of. destruct (cfg_strict_family cfg); auto. destruct (cfg_listener cfg); auto.
+  destruct (is_v4 (ip src)); auto.
+Qed.
+
+Theorem step_frame cfg s e s' acts : step cfg s e = (s', acts) ->
+  forall a', In a' (allocs s') -> (exists a, In a (allocs s) /\ same_id a a') \/ fresh_alloc cfg e a'.
+Proof.
+  intros H a' Hin.
+  assert (Same : s' = s -> (exists a, In a (allocs s) /\ same_id a a') \/ fresh_alloc cfg e a').
+  { intros ->. left. exists a'. split; [exact Hin|apply same_id_refl]. }
+  assert (Repl : forall a x, In a (allocs s) -> same_id a x -> In a' (replace_alloc x (allocs s)) ->
+            (exists a0, In a0 (allocs s) /\ same_id a0 a') \/ fresh_alloc cfg e a').
+  { intros a x Ha Hs Hi. left. apply replace_alloc_in in Hi as [->|Hi]; [exists a; auto|exists a'; split; [exact Hi|apply same_id_refl]]. }
+  destruct e as [src tid c r unk|src p d|src n d|relay from d|dt|relay]; cbn [step] in H.
+  - destruct unk; [inversion H; subst; apply Same; reflexivity|].
+    destruct r as [tr lt fam df rp ep rt mt|lt fam|peers|n p|]; try (inversion H; subst; apply Same; reflexivity);
+      destruct (authenticate cfg s c) as [uid|code ch]; try (inversion H; subst; apply Same; reflexivity).
+    + unfold h_allocate in H. repeat (dmatch H; try (inversion H; subst; apply Same; reflexivity)).
+      all: inversion H; subst; clear H; cbn [allocs set_allocs add_rsv] in Hin; apply in_app_iff in Hin as [Hin|[<-|[]]];
+        [left; exists a'; split; [exact Hin|apply same_id_refl]|right].
+      all: unfold fresh_alloc; cbn; splits; eauto 10.
+      all: try (match goal with E : (_ =? 2)%N = _ |- _ => rewrite E; reflexivity end).
+      all: match goal with E : match ?f with AAbsent => _ | ABadSize => _ | APresent _ => _ end = inl _ |- _ =>
+             destruct f as [| |f0]; [inversion E; subst; apply default_family_12|discriminate|
+               destruct ((f0 =? 1)%N || (f0 =? 2)%N) eqn:Ef; [|discriminate]; inversion E; subst;
+               apply orb_true_iff in Ef as [Ef|Ef]; apply N.eqb_eq in Ef; auto] end.
+    + unfold h_refresh in H. cbv zeta in H.
+      destruct (owned_alloc s src uid) as [a|] eqn:Ho; [|inversion H; subst; apply Same; reflexivity].
+      apply owned_alloc_some in Ho as (Ha & _ & _).
+      repeat (dmatch H; try (inversion H; subst; apply Same; reflexivity)).
+      all: inversion H; subst; clear H; cbn [allocs set_allocs] in Hin.
+      all: try (left; apply remove_alloc_in in Hin; exists a'; split; [exact Hin|apply same_id_refl]).
+      all: eapply Repl; [exact Ha| |exact Hin]; unfold same_id; cbn; auto 6.
+    + unfold h_create_perm in H.
+      destruct (owned_alloc s src uid) as [a|] eqn:Ho; [|inversion H; subst; apply Same; reflexivity].
+      apply owned_alloc_some in Ho as (Ha & _ & _).
+      destruct (perm_check cfg a peers); [inversion H; subst; apply Same; reflexivity|].
+      destruct peers as [|q peers]; [inversion H; subst; apply Same; reflexivity|].
+      destruct (install_perms a (now s + cfg_perm_timeout cfg) (q :: peers)) as [a1 evs] eqn:Hi.
+      inversion H; subst; clear H. cbn [allocs set_allocs] in Hin.
+      eapply Repl; [exact Ha|eapply install_perms_id; eauto|exact Hin].
+    + unfold h_channel_bind in H.
+      destruct (owned_alloc s src uid) as [a|] eqn:Ho; [|inversion H; subst; apply Same; reflexivity].
+      apply owned_alloc_some in Ho as (Ha & _ & _).
+      repeat (dmatch H; try (inversion H; subst; apply Same; reflexivity)).
+      all: inversion H; subst; clear H; cbn [allocs set_allocs] in Hin.
+      all: match goal with E : add_perm _ _ _ = (?x, _) |- _ => apply add_perm_id in E;
+             eapply Repl; [exact Ha| |exact Hin]; unfold same_id in *; cbn in *; intuition congruence end.
+  - unfold h_send in H. repeat (dmatch H; try (inversion H; subst; apply Same; reflexivity)).
+  - unfold h_chandata in H. repeat (dmatch H; try (inversion H; subst; apply Same; reflexivity)).
+  - unfold h_peer in H. repeat (dmatch H; try (inversion H; subst; apply Same; reflexivity)).
+  - unfold h_tick in H. destruct (tick_allocs (now s + Z.max 0 dt) (allocs s)) as [l evs] eqn:Ht.
+    inversion H; subst; clear H. cbn [allocs] in Hin. left. eapply tick_allocs_id; eauto.
+  - unfold h_relay_err in H. destruct (find_relay relay (allocs s)) as [a|]; inversion H; subst; [|apply Same; reflexivity].
+    cbn [allocs set_allocs] in Hin. left. apply remove_alloc_in in Hin. exists a'. split; [exact Hin|apply same_id_refl].
+Qed.
+
+(* the generic lift with an additional invariant *)
+Lemma all_steps_model2 cfg (J : state -> Prop) (f : list obs_alloc -> ostep -> bool) :
+  (forall s e s' acts, inv cfg s -> J s -> step cfg s e = (s', acts) -> J s') ->
+  (forall s e s' acts, inv cfg s -> J s -> step cfg s e = (s', acts) ->
+     f (listing_of s) {| os_ev := e; os_acts := acts; os_allocs := listing_of s' |} = true) ->
+  forall h s, inv cfg s -> J s -> all_steps f (listing_of s) (model_trace cfg s h) = true.
+Proof.
+  intros HJ Hstep. induction h as [|e r IH]; intros s Hinv Hj; cbn [model_trace all_steps]; [reflexivity|].
+  destruct (step cfg s e) as [s' acts] eqn:Hs. cbn [all_steps os_allocs].
+  rewrite (Hstep _ _ _ _ Hinv Hj Hs). cbn. apply IH; [eapply inv_step; eauto|eapply HJ; eauto].
+Qed.
+
+(* ---------- C01 gate ---------- *)
+(* the relay IPs of the configuration are of the family they are configured for *)
+Definition cfg_relay_wf (cfg : config) : Prop := is_v4 (cfg_relay_ip4 cfg) = true /\ is_v4 (cfg_relay_ip6 cfg) = false.
+Definition relfam (s : state) : Prop := Forall (fun a => fam_of (ip (a_relay a)) = a_fam a) (allocs s).
+
+Lemma relfam_step cfg s e s' acts : cfg_relay_wf cfg -> relfam s -> step cfg s e = (s', acts) -> relfam s'.
+Proof.
+  intros [W4 W6] Hr Hs. unfold relfam in *. rewrite Forall_forall in *. intros a' Hin.
+  destruct (step_frame _ _ _ _ _ Hs _ Hin) as [(a & Ha & (_ & Er & Ef & _))|(_ & Hf & Hip & _)].
+  - rewrite Er, Ef. apply Hr. exact Ha.
+  - unfold fam_of. rewrite Hip. destruct Hf as [E|E]; rewrite E; cbn; [rewrite W4|rewrite W6]; reflexivity.
+Qed.
+
+Lemma installed_ok_obs cfg a : alloc_ok cfg a -> fam_of (ip (a_relay a)) = a_fam a -> installed_ok cfg (obs_of a) = true.
+Proof.
+  intros (_ & _ & _ & _ & Hp & Hc) Hf. unfold installed_ok, oa_fam, obs_of. cbn [oa_perms oa_chans oa_client oa_relay].
+  rewrite Hf. apply andb_true_iff. split; apply forallb_forall.
+  - intros i Hi. destruct (Hp i Hi) as [A B]. rewrite A, B. reflexivity.
+  - intros [n p] Hi. cbn [snd]. apply in_map_iff in Hi as (c & E & Hc'). inversion E; subst.
+    destruct (Hc (c_peer c) (in_map _ _ _ Hc')) as [A B]. rewrite A, B. reflexivity.
+Qed.
+
+Lemma topeers_nil_of cfg s e s' acts : step cfg s e = (s', acts) ->
+  match e with ESend _ _ _ | EChanData _ _ _ => False | _ => True end -> topeers acts = [].
+Proof.
+  intros Hs Hne. unfold topeers.
+  assert (F : Forall (fun a => match a with ToPeer _ _ _ => False | _ => True end) acts).
+  { rewrite Forall_forall. intros a Hin. destruct a; auto.
+    destruct (topeer_only_from_send_or_chandata cfg s e s' acts _ _ _ Hs Hin) as [(x & y & z & E)|(x & y & z & E)]; subst e; contradiction. }
+  clear Hs. induction acts as [|a l IH]; cbn; [reflexivity|]. inversion F as [|? ? Ha Hl]; subst.
+  destruct a; cbn in Ha |- *; try contradiction; apply IH; exact Hl.
+Qed.
+
+Lemma chk_C01_step_model cfg s e s' acts : cfg_relay_wf cfg -> inv cfg s -> relfam s -> step cfg s e = (s', acts) ->
+  chk_C01_step cfg (listing_of s) {| os_ev := e; os_acts := acts; os_allocs := listing_of s' |} = true.
+Proof.
+  intros Hw Hinv Hr Hs. unfold chk_C01_step. cbn [os_ev os_acts os_allocs].
+  assert (Hinst : forallb (installed_ok cfg) (listing_of s') = true).
+  { pose proof (inv_step _ _ _ _ _ Hinv Hs) as [_ Hall]. pose proof (relfam_step _ _ _ _ _ Hw Hr Hs) as Hr'.
+    rewrite listing_of_map. apply forallb_forall. intros o Ho. apply in_map_iff in Ho as (a & <- & Ha).
+    unfold relfam in Hr'. rewrite Forall_forall in Hall, Hr'. apply installed_ok_obs; auto. }
+  rewrite Hinst. cbn [andb].
+  destruct e as [src tid c rq unk|src p dat|src n dat|relay from dat|dt|relay];
+    try (rewrite (topeers_nil_of _ _ _ _ _ Hs I); reflexivity).
+  - cbn [step] in Hs. apply h_send_spec in Hs as [_ [->|(a & q & d & pm & -> & -> & -> & Hf & Hp & _)]]; [destruct p as [[?|]|], dat; reflexivity|].
+    cbn [topeers filter]. rewrite listing_of_map, find_oalloc_listing, Hf. cbn [option_map obs_of oa_relay].
+    rewrite !addr_eqb_refl, beqb_refl. unfold has_perm, obs_of. cbn [oa_perms]. rewrite (find_perm_has _ _ _ Hp). reflexivity.
+  - cbn [step] in Hs. apply h_chandata_spec in Hs as [_ [->|(a & c & -> & Hf & Hc & _)]]; [reflexivity|].
+    cbn [topeers filter]. rewrite listing_of_map, find_oalloc_listing, Hf. cbn [option_map obs_of oa_relay].
+    rewrite !addr_eqb_refl, beqb_refl. unfold has_chan, obs_of. cbn [oa_chans]. rewrite (find_chan_num_has _ _ _ Hc). reflexivity.
+Qed.
+
+(* for every configuration (with relay IPs of their own family) and every history: on the model's own trace nothing
+   vetoed or of the wrong family is ever installed, and data leaves toward a peer only for a Send indication /
+   ChannelData of the owner, from its own relayed address, unmodified, through a permission / binding present
+   before the event *)
+Theorem chk_C01_gate_model cfg ep h : cfg_relay_wf cfg -> chk_C01_gate (model_case cfg ep h) = true.
+Proof.
+  intros Hw. unfold chk_C01_gate, model_case. cbn [rc_steps rc_cfg].
+  change (@nil obs_alloc) with (listing_of (init ep)).
+  apply (all_steps_model2 cfg relfam (chk_C01_step cfg)).
+  - intros s e s' acts _ Hr Hs. eapply relfam_step; eauto.
+  - intros s e s' acts Hinv Hr Hs. apply chk_C01_step_model; assumption.
+  - apply inv_init.
+  - constructor.
+Qed.
+
+(* ---------- C08 ---------- *)
+Lemma mset_eqb_refl {A} (eqb : A -> A -> bool) l : mset_eqb eqb l l = true.
+Proof. unfold mset_eqb. rewrite Nat.eqb_refl. cbn. apply forallb_forall. intros x _. apply Nat.eqb_refl. Qed.
+
+Lemma nodupb_NoDup {A} (eqb : A -> A -> bool) (Heq : forall a b, eqb a b = true <-> a = b) l : NoDup l -> nodupb eqb l = true.
+Proof.
+  induction l as [|x l IH]; intros H; [reflexivity|]. inversion H as [|? ? Hx Hl]; subst. cbn [nodupb].
+  rewrite (IH Hl), andb_true_r. apply Bool.negb_true_iff. apply Bool.not_true_is_false. intros E.
+  apply existsb_exists in E as (y & Hy & Ey). apply Heq in Ey. subst. contradiction.
+Qed.
+
+Lemma bijective_obs cfg a : alloc_ok cfg a -> bijective (obs_of a) = true.
+Proof.
+  intros (_ & Hn & Hp & Hv & _). unfold bijective, obs_of. cbn [oa_chans]. rewrite !map_map. cbn [fst snd].
+  change (map (fun x : chan => c_num x) (a_chans a)) with (map c_num (a_chans a)).
+  change (map (fun x : chan => c_peer x) (a_chans a)) with (map c_peer (a_chans a)).
+  rewrite (nodupb_NoDup N.eqb N.eqb_eq _ Hn), (nodupb_NoDup addr_eqb addr_eqb_eq _ Hp). cbn.
+  apply forallb_forall. intros [n p] Hi. apply in_map_iff in Hi as (c & E & Hc). inversion E; subst. cbn. apply Hv. exact Hc.
+Qed.
+
+Lemma find_chan_num_unique l c : NoDup (map c_num l) -> In c l -> find_chan_num (c_num c) l = Some c.
+Proof.
+  induction l as [|x l IH]; cbn; [contradiction|]. intros Hnd Hin. inversion Hnd as [|? ? Hx Hl]; subst.
+  destruct Hin as [->|Hin]; [rewrite N.eqb_refl; reflexivity|].
+  destruct (N.eqb_spec (c_num x) (c_num c)) as [E|E]; [|apply IH; assumption].
+  exfalso. apply Hx. rewrite E. apply in_map. exact Hin.
+Qed.
+
+Lemma find_chan_peer_unique l c : NoDup (map c_peer l) -> In c l -> find_chan_peer (c_peer c) l = Some c.
+Proof.
+  induction l as [|x l IH]; cbn; [contradiction|]. intros Hnd Hin. inversion Hnd as [|? ? Hx Hl]; subst.
+  destruct Hin as [->|Hin]; [rewrite addr_eqb_refl; reflexivity|].
+  destruct (addr_eqb (c_peer x) (c_peer c)) eqn:E; [|apply IH; assumption].
+  apply addr_eqb_eq in E. exfalso. apply Hx. rewrite E. apply in_map. exact Hin.
+Qed.
+
+(* a conflicting ChannelBind by the owner: an error (400, 443 or 401), nothing changes *)
+Lemma channel_bind_conflict_codes cfg s src tid uid n p a :
+  owned_alloc s src uid = Some a ->
+  ((exists c, find_chan_num n (a_chans a) = Some c /\ c_peer c <> p) \/
+   (exists c, find_chan_peer p (a_chans a) = Some c /\ c_num c <> n)) ->
+  exists code, h_channel_bind cfg s src tid uid (APresent n) (Some (PeerOk p)) = (s, [Error src MChannelBind tid code false])
+               /\ (code = 400 \/ code = 443 \/ code = 401)%N.
+Proof.
+  intros Ho Hconf. unfold h_channel_bind. rewrite Ho.
+  destruct (valid_chan n); cbn [negb]; [|eexists; split; [reflexivity|auto]].
+  destruct (ip_matches_family (ip p) (a_fam a)); cbn [negb]; [|eexists; split; [reflexivity|auto]].
+  destruct (cfg_policy cfg src (ip p)); cbn [negb]; [|eexists; split; [reflexivity|auto]].
+  destruct Hconf as [(c & Hc & Hne)|(c & Hc & Hne)].
+  - destruct (find_chan_peer p (a_chans a)) as [c1|] eqn:Hp.
+    + destruct (N.eqb_spec (c_num c1) n); cbn [negb].
+      * rewrite Hc. destruct (addr_eqb (c_peer c) p) eqn:E; [apply addr_eqb_eq in E; contradiction|].
+        cbn [negb]. eexists; split; [reflexivity|auto].
+      * eexists; split; [reflexivity|auto].
+    + rewrite Hc. destruct (addr_eqb (c_peer c) p) eqn:E; [apply addr_eqb_eq in E; contradiction|].
+      cbn [negb]. eexists; split; [reflexivity|auto].
+  - rewrite Hc. destruct (N.eqb_spec (c_num c) n); [contradiction|]. cbn [negb]. eexists; split; [reflexivity|auto].
+Qed.
+
+Lemma authenticate_code_nonzero cfg s c code ch : authenticate cfg s c = AuthReply code ch -> (code =? 0)%N = false.
+Proof.
+  unfold authenticate. intros H. repeat (dmatch H; try discriminate). all: inversion H; subst; reflexivity.
+Qed.
+
+Lemma chandata_out_valid cfg s e s' acts : inv cfg s -> step cfg s e = (s', acts) ->
+  forallb (fun a => match a with ChanDataOut _ n _ => valid_chan n | _ => true end) acts = true.
+Proof.
+  intros [_ Hall] Hs. apply forallb_forall. intros x Hx. destruct x as [| | |dst n d| |]; auto.
+  assert (exists relay from dd, e = EPeer relay from dd) as (relay & from & dd & ->)
+    by (eapply to_client_data_only_from_peer; [exact Hs|right; eauto]).
+  cbn [step] in Hs. apply h_peer_spec in Hs as [_ [->|(a & Hf & _ & _ & [(c & Hc & ->)|(_ & pm & _ & ->)])]];
+    [destruct Hx| |destruct Hx as [E|[]]; discriminate].
+  destruct Hx as [E|[]]. inversion E; subst. apply find_relay_some in Hf as [Ha _]. apply find_chan_peer_some in Hc as [Hc _].
+  rewrite Forall_forall in Hall. destruct (Hall _ Ha) as (_ & _ & _ & Hv & _). apply Hv. exact Hc.
+Qed.
+
+Lemma chk_C08_step_model cfg s e s' acts : inv cfg s -> step cfg s e = (s', acts) ->
+  chk_C08_step (listing_of s) {| os_ev := e; os_acts := acts; os_allocs := listing_of s' |} = true.
+Proof.
+  intros Hinv Hs. unfold chk_C08_step. cbn [os_ev os_acts os_allocs].
+  assert (Hbij : forallb bijective (listing_of s') = true).
+  { pose proof (inv_step _ _ _ _ _ Hinv Hs) as [_ Hall]. rewrite listing_of_map. apply forallb_forall.
+    intros o Ho. apply in_map_iff in Ho as (a & <- & Ha). rewrite Forall_forall in Hall. eapply bijective_obs; eauto. }
+  rewrite Hbij, (chandata_out_valid _ _ _ _ _ Hinv Hs). cbn [andb].
+  destruct e as [src tid c rq unk|src p dat|src n dat|relay from dat|dt|relay]; try reflexivity.
+  destruct rq as [? ? ? ? ? ? ? ?|? ?|?|num peer|]; try reflexivity.
+  destruct num as [| |n]; try reflexivity. destruct peer as [[p|]|]; try reflexivity. destruct unk; [reflexivity|].
+  rewrite listing_of_map, find_oalloc_listing. destruct (find_alloc src (allocs s)) as [a|] eqn:Hf; [|reflexivity].
+  cbn [option_map]. cbn [step] in Hs.
+  destruct (authenticate cfg s c) as [uid|code ch] eqn:Ha.
+  2:{ (* not authenticated: an error reply, nothing changes *)
+    inversion Hs; subst; clear Hs. cbn [replies filter req_method lifes is_life].
+    rewrite (authenticate_code_nonzero _ _ _ _ _ Ha), mset_eqb_refl. cbn.
+    destruct (existsb _ _); cbn; [reflexivity|]. destruct (valid_chan n); reflexivity. }
+  destruct (owned_alloc s src uid) as [a0|] eqn:Ho.
+  2:{ (* not the owner: silence *)
+      unfold h_channel_bind in Hs. rewrite Ho in Hs. inversion Hs; subst; clear Hs. cbn [replies filter].
+      rewrite !andb_false_r. reflexivity. }
+  assert (a0 = a) as -> by (unfold owned_alloc in Ho; rewrite Hf in Ho; destruct (a_user a =? uid)%N; congruence).
+  pose proof (find_alloc_some _ _ _ Hf) as [Hain _].
+  assert (Hok : alloc_ok cfg a) by (destruct Hinv as [_ Hall]; rewrite Forall_forall in Hall; auto).
+  destruct Hok as (_ & Hnn & Hnp & _).
+  destruct (existsb _ (oa_chans (obs_of a))) eqn:Hconf.
+  - (* a conflicting binding exists *)
+    apply existsb_exists in Hconf as ([n0 p0] & Hin0 & Hc0). unfold obs_of in Hin0. cbn [oa_chans] in Hin0.
+    apply in_map_iff in Hin0 as (c0 & E0 & Hc0in). inversion E0; subst n0 p0; clear E0. cbn [fst snd] in Hc0.
+    assert (Hcf : (exists c1, find_chan_num n (a_chans a) = Some c1 /\ c_peer c1 <> p) \/
+                  (exists c1, find_chan_peer p (a_chans a) = Some c1 /\ c_num c1 <> n)).
+    { apply orb_true_iff in Hc0 as [H1|H1]; apply andb_true_iff in H1 as [A B].
+      - apply N.eqb_eq in A. apply Bool.negb_true_iff, addr_eqb_neq in B. left. exists c0. split; [|exact B].
+        rewrite <- A. apply find_chan_num_unique; assumption.
+      - apply Bool.negb_true_iff in A. apply N.eqb_neq in A. apply addr_eqb_eq in B. right. exists c0. split; [|exact A].
+        rewrite <- B. apply find_chan_peer_unique; assumption. }
+    destruct (channel_bind_conflict_codes cfg s src tid uid n p a Ho Hcf) as (code & Hh & Hcode).
+    rewrite Hh in Hs. inversion Hs; subst; clear Hs. cbn [replies filter lifes is_life andb].
+    rewrite mset_eqb_refl. destruct Hcode as [E|[E|E]]; rewrite E; reflexivity.
+  - (* no conflict *)
+    cbn [andb]. destruct (valid_chan n) eqn:Hv; cbn [negb andb]; [reflexivity|].
+    unfold h_channel_bind in Hs. rewrite Ho, Hv in Hs. cbn [negb] in Hs. inversion Hs; subst; clear Hs.
+    cbn [replies filter]. rewrite mset_eqb_refl. reflexivity.
+Qed.
+
+(* for every configuration and every history: channel bindings stay one-to-one and in range, ChannelData toward the
+   client carries numbers in range, and a conflicting or out-of-range ChannelBind that is answered is answered by an
+   error and changes nothing *)
+Theorem chk_C08_model cfg ep h : chk_C08 (model_case cfg ep h) = true.
+Proof.
+  unfold chk_C08, model_case. cbn [rc_steps]. change (@nil obs_alloc) with (listing_of (init ep)).
+  apply (all_steps_model cfg chk_C08_step (chk_C08_step_model cfg) h (init ep)). apply inv_init.
+Qed.
